@@ -48,6 +48,11 @@ def apply (st : St) (r : Res State) : St × String :=
 
 def step (st : St) : List String → St × String
   | ["reset"] => ({ st with s := st.genesis }, "ok")
+  -- configuration / storage-layer ops that must not change what the indexes answer: memory-first node,
+  -- ffldb write-back cache policy (write-through vs cached commits) and an explicit cache flush
+  | ["mode", _] => ({ st with s := st.genesis }, "ok")
+  | ["fpol", _] => (st, "ok")
+  | ["flush"] => (st, "ok")
   | "init" :: ts => match pBlock ts with
       | some b => match genesisState b with
           | .ok s => ({ s := s, genesis := s }, "ok")
